@@ -216,7 +216,8 @@ def attrTargetsF : Nat → Heap → Nat → Nat → List Nat
     if (h.node i).lazy then i :: (kidIds h i).flatMap (attrTargetsF n h d)
     else if d = 0 then [i]
     else i :: (kidIds h i).flatMap (attrTargetsF n h (d - 1))
-def attrTargets (h : Heap) (d i : Nat) : List Nat := attrTargetsF (i + 1) h d i
+/-- once each: a tensordict reachable through several keys is visited several times by the code, with the same effect -/
+def attrTargets (h : Heap) (d i : Nat) : List Nat := dedup (attrTargetsF (i + 1) h d i)
 
 /-- one tensordict: the cache invalidation of the setter, then the assignment.
 plain tensordict: `if self._is_locked: self._erase_cache_up()`; lazy stack: `@erase_cache` (its own cache only — the
